@@ -106,6 +106,7 @@ class Minimiser:
         case = self.try_one(case, "clock -> fixed instant", env_set("clock", ["2026-01-01T00:00:00"]))
         case = self.try_one(case, "stdout -> block buffered", env_set("stdout_mode", "block"))
         case = self.try_one(case, "stdout buffer -> 4096", env_set("stdout_bufsize", 4096))
+        case = self.try_one(case, "LF checkout", env_set("crlf", False))
         if "base_git" not in case:
             case = self.try_one(case, "git -> ok", env_set("git", "ok:x"))
         case = self.try_one(case, "hashseed -> 0", lambda c: c.__setitem__("hashseed", 0))
